@@ -4,7 +4,72 @@
 -/
 import LLFreeV.Model.Codec
 import LLFreeV.Model.Policies
+import LLFreeV.Gen.Leaf
 namespace LLFree
+
+/-! ### `eval/src/classes.rs`: class configurations and request generation -/
+
+/-- `GfpMatch` -/
+inductive GfpMatch where
+  | on (flag : Nat)
+  | off (flag : Nat)
+  | all (l : List GfpMatch)
+  | any (l : List GfpMatch)
+  | not (m : GfpMatch)
+
+mutual
+/-- `GfpMatch::matches` (`GFP == u32` is "any common bit") -/
+def GfpMatch.eval (gfp : Nat) : GfpMatch → Bool
+  | .on f => (f &&& gfp) != 0
+  | .off f => (f &&& gfp) == 0
+  | .all l => GfpMatch.evalAll gfp l
+  | .any l => GfpMatch.evalAny gfp l
+  | .not m => !(GfpMatch.eval gfp m)
+def GfpMatch.evalAll (gfp : Nat) : List GfpMatch → Bool
+  | [] => true
+  | m :: ms => GfpMatch.eval gfp m && GfpMatch.evalAll gfp ms
+def GfpMatch.evalAny (gfp : Nat) : List GfpMatch → Bool
+  | [] => false
+  | m :: ms => GfpMatch.eval gfp m || GfpMatch.evalAny gfp ms
+end
+
+/-- `ClassConfig` -/
+structure ClassCfg where
+  id : Nat
+  count : Gen.Count
+  order : Option (Nat × Nat)
+  gfp : GfpMatch
+
+/-- `ClassConfig::matches` -/
+def ClassCfg.matches (c : ClassCfg) (order gfp : Nat) : Bool :=
+  (match c.order with
+   | some (lo, hi) => lo ≤ order && order ≤ hi
+   | none => true) && c.gfp.eval gfp
+
+/-- `ClassingConfig::count`: the slot kind of a class is that of its *last* entry -/
+def countOf (classes : List ClassCfg) (id : Nat) : Option Gen.Count :=
+  (classes.reverse.find? (fun c => c.id == id)).map (·.count)
+
+/-- `ClassingConfig::request` with the matcher outcome abstracted as a predicate:
+    `none` = the source indexes `self.classes[0]` of an empty list (panic). -/
+def requestWith (classes : List ClassCfg) (matched : ClassCfg → Bool) (core cores pid : Nat) :
+    Option (Nat × Option Nat) :=
+  let mk (c : ClassCfg) : Option (Nat × Option Nat) :=
+    (countOf classes c.id).map fun k => (c.id, k.toLocal core cores pid)
+  match classes.find? matched with
+  | some c => mk c
+  | none =>
+    match classes with
+    | [] => none
+    | c :: _ => mk c
+
+/-- `ClassingConfig::request` -/
+def request (classes : List ClassCfg) (order core cores pid gfp : Nat) : Option (Nat × Option Nat) :=
+  requestWith classes (fun c => c.matches order gfp) core cores pid
+
+/-- slot count of class `k` in `classing(cores)`: `Locals::new` lets the last entry win -/
+def slotCount (classes : List ClassCfg) (cores : Nat) (k : Nat) : Option Nat :=
+  ((classes.reverse.find? (fun c => c.id == k))).map (fun c => c.count.toCount cores)
 
 /-- stateless commands; `none` = not one of ours -/
 def hexDigitE (c : Char) : Option Nat :=
@@ -16,8 +81,83 @@ def parseHexE (s : String) : Option Nat :=
   s.toList.foldl (fun acc ch => do let a ← acc; let d ← hexDigitE ch; pure (a * 16 + d)) (some 0)
 def toHexE (n : Nat) : String := String.ofList (Nat.toDigits 16 n)
 
+/-- `search_best` over the given packed tree entries with an access function that always
+    answers `Memory` and logs the visited index as a base-64 digit in huge entry 0. -/
+def sbestRun (tf cap start offset len cls order variant : Nat) (tw : List Nat) : String :=
+  let m : Mem := { rows := #[], huge := #[0], trees := (tw.map Tree.unpack).toArray, slots := #[] }
+  let pol := simplePolicy tf
+  let base : Nat → Nat → Policy := fun t f => if f ≥ 2 ^ order then pol cls t f else .invalid
+  let rate : Nat → Nat → Policy := fun t f =>
+    match variant with
+    | 0 => base t f
+    | 1 => match base t f with
+      | .match p => .match p
+      | .demote => if f = tf then .demote else .invalid
+      | _ => .invalid
+    | _ => match base t f with
+      | .match _ => .match 255
+      | .demote => if f = tf then .match 255 else .demote
+      | p => p
+  let access : Nat → Prog (Res Unit) := fun i => do
+    let _ ← Prog.updK .huge 0 (fun (e : Nat) => .set (e * 64 + i + 1))
+    return .error .memory
+  let (m', o) := runSolo (Trees.searchBest tf tw.length cap start offset len rate access) m
+  match o with
+  | .panic s => "panic " ++ s
+  | .ok _ =>
+    let rec digits (fuel n : Nat) (acc : List Nat) : List Nat :=
+      match fuel with
+      | 0 => acc
+      | fuel+1 => if n = 0 then acc else digits fuel (n / 64) ((n % 64 - 1) :: acc)
+    let log := digits 200 (m'.huge[0]?.getD 0) []
+    ("accessed " ++ " ".intercalate (log.map toString)).trimAsciiEnd.toString
+
+/-! parser of the matcher syntax `on:N | off:N | all(e,…) | any(e,…) | not(e)` -/
+def splitTop (s : List Char) : List (List Char) :=
+  let rec go (cs : List Char) (depth : Nat) (cur : List Char) (acc : List (List Char)) : List (List Char) :=
+    match cs with
+    | [] => if cur.isEmpty && acc.isEmpty then [] else (cur.reverse :: acc).reverse
+    | '(' :: r => go r (depth + 1) ('(' :: cur) acc
+    | ')' :: r => go r (depth - 1) (')' :: cur) acc
+    | ',' :: r => if depth = 0 then go r depth [] (cur.reverse :: acc) else go r depth (',' :: cur) acc
+    | ch :: r => go r depth (ch :: cur) acc
+  go s 0 [] []
+
+def parseMatch (fuel : Nat) (s : List Char) : Option GfpMatch :=
+  match fuel with
+  | 0 => none
+  | fuel+1 =>
+    let str := String.ofList s
+    if str.startsWith "on:" then (String.ofList (s.drop 3)).toNat?.map .on
+    else if str.startsWith "off:" then (String.ofList (s.drop 4)).toNat?.map .off
+    else if str.startsWith "all(" then
+      ((splitTop ((s.drop 4).dropLast)).mapM (parseMatch fuel)).map .all
+    else if str.startsWith "any(" then
+      ((splitTop ((s.drop 4).dropLast)).mapM (parseMatch fuel)).map .any
+    else if str.startsWith "not(" then
+      (parseMatch fuel ((s.drop 4).dropLast)).map .not
+    else none
+
+def parseKind : String → Option Gen.Count
+  | "zero" => some .zero | "one" => some .one | "cores" => some .cores
+  | "cores_half" => some .coresHalf | "pids" => some .pids | _ => none
+
+def parseClassCfgs : List String → Option (List ClassCfg)
+  | [] => some []
+  | id :: kind :: order :: expr :: rest => do
+    let id ← id.toNat?
+    let kind ← parseKind kind
+    let order ← (if order == "-" then some none else
+      match order.splitOn "-" with
+      | [a, b] => do let a ← a.toNat?; let b ← b.toNat?; pure (some (a, b))
+      | _ => none)
+    let g ← parseMatch 64 expr.toList
+    let rest ← parseClassCfgs rest
+    pure (⟨id, kind, order, g⟩ :: rest)
+  | _ => none
+
 /-- stateless commands (need no allocator instance); `none` = not one of ours -/
-def unitStep (cmd : String) (args : List String) : Option String :=
+def unitStep (tf : Nat) (cmd : String) (args : List String) : Option String :=
   match cmd, args with
   | "fza", [v, o] =>
     match parseHexE v, o.toNat? with
@@ -27,8 +167,31 @@ def unitStep (cmd : String) (args : List String) : Option String :=
       | some (nv, off) => some s!"some {toHexE nv.toNat} {off}"
       | none => some "none"
     | _, _ => some "bad-op"
+  | "sbuf", n :: keys =>
+    match n.toNat?, keys.mapM String.toNat? with
+    | some n, some keys =>
+      let pairs := (List.range keys.length).zip keys |>.map (fun (i, k) => (k, i))
+      let buf := pairs.foldl (SortedBuffer.add (fun (a b : Nat × Nat) => decide (a.1 ≤ b.1)) n) []
+      some (("kept " ++ " ".intercalate (buf.map fun (k, i) => s!"{k}:{i}")).trimAsciiEnd.toString)
+    | _, _ => some "bad-op"
+  | "sbest", cap :: start :: offset :: len :: cls :: order :: variant :: "|" :: trees =>
+    match cap.toNat?, start.toNat?, offset.toNat?, len.toNat?, cls.toNat?, order.toNat?, variant.toNat?,
+        trees.mapM parseHexE with
+    | some cap, some start, some offset, some len, some cls, some order, some variant, some tw =>
+      -- the geometry only enters through TREE_FRAMES of the policy; passed by the caller via `tf`
+      some (sbestRun tf cap start offset len cls order variant tw)
+    | _, _, _, _, _, _, _, _ => some "bad-op"
+  | "req", cores :: core :: pid :: order :: gfp :: "|" :: cls =>
+    match cores.toNat?, core.toNat?, pid.toNat?, order.toNat?, gfp.toNat?, parseClassCfgs cls with
+    | some cores, some core, some pid, some order, some gfp, some classes =>
+      match request classes order core cores pid gfp with
+      | none => some "panic index out of bounds"
+      | some (k, loc) =>
+        let o := fun (x : Option Nat) => match x with | some v => toString v | none => "-"
+        some s!"req {k} {o loc} {o (slotCount classes cores k)}"
+    | _, _, _, _, _, _ => some "bad-op"
   | _, _ => none
 
-def evalStep (_c : Cfg) (cmd : String) (args : List String) : Option String := unitStep cmd args
+def evalStep (c : Cfg) (cmd : String) (args : List String) : Option String := unitStep c.geom.treeFrames cmd args
 
 end LLFree
